@@ -13,6 +13,44 @@ TB = ("Trusted: Lean 4.33 kernel; axioms propext/Classical.choice/Quot.sound onl
       "gcc/glibc/ASan; the C harness's abstraction functions and the script generators.")
 
 CLAIMED = {
+    "C03": {
+        "design_ref": "DESIGN.md 4/C03",
+        "text": "Lean 4 theorems over a model of hash.c that keeps the mechanism (bucket array with clean bits, sweep index, pending "
+                "geometry, first-resize shortcut, capacity retention, realloc oracle with the 64-bit byte count, ONE uninterpreted "
+                "hash function parameter): an inductive invariant (every node is new-placed or old-placed in a dirty bucket below the "
+                "count, clean buckets hold only new-placed nodes, ...) preserved by every operation; insert/find/erase/size/resize/"
+                "rehash/shrink are exact against the multiset-of-(key,id) spec; find offers each live element with the key at most "
+                "once and returns the first accepted; run_exact over arbitrary histories on two tables (incl. swap, enumeration, "
+                "clear) for every in-range hash function. Tied to /repo by exact-state differential execution (closure over all "
+                "reachable table states in a small scope incl. resize during a pending resize, boundary bucket counts, random "
+                "histories to 64 buckets) comparing every chain in order with clean bits, counters, results, offers and the "
+                "hash-call log; address-keyed membership-ledger oracle.",
+        "note": TB,
+        "technique": "Lean 4 proof (inductive invariant, refinement to a multiset spec over operation lists) + exact-state correspondence check",
+    },
+    "C04": {
+        "design_ref": "DESIGN.md 4/C04",
+        "text": "Lean 4 theorems on the same hash model: foreach, foreach_const and clear refine a list-level specification in every "
+                "table state incl. every stage of a pending grow or shrink: each live element exactly once (until the visit function "
+                "asks to stop, whose value is returned), also when visited elements erase themselves; clear hands every live element "
+                "to the callback once, empties the table, and clear-then-resize behaves as a fresh table. Tied to /repo as C03 with "
+                "the three enumeration entry points applied in every closure state, callbacks that erase+poison; per-address visit-"
+                "count oracle.",
+        "note": TB,
+        "technique": "Lean 4 proof (refinement of the enumeration entry points to a list-level spec) + exact-state correspondence check",
+    },
+    "C19": {
+        "design_ref": "DESIGN.md 4/C19",
+        "text": "Lean 4 theorems on the same hash model, which additionally returns the number of relocated buckets and the hash-call "
+                "log of every operation: load = size / effective bucket count, a satisfiable resize lands on the requested geometry "
+                "(also while another is pending) and keyed operations / rehash / shrink keep heading there, a settled table consults "
+                "the hash function exactly once with (fn, key, n), a keyed operation during a pending rehash relocates at most three "
+                "buckets, leaves all other chains untouched and advances the sweep, the rehash finishes within `count` keyed "
+                "operations (sharp bound proved too). Tied to /repo as C03, additionally comparing cstl_hash_load, the hash-call log "
+                "and the sweep index; load/single-call/relocation-count oracle.",
+        "note": TB,
+        "technique": "Lean 4 proof (progress measure on the sweep index, cost bound per operation) + exact-state correspondence check",
+    },
     "C15": {
         "design_ref": "DESIGN.md 4/C15",
         "text": "Lean 4 theorems: for each container's clear — slist and dlist (link level: callbacks = the represented sequence, for "
